@@ -6,7 +6,7 @@ from . import common, parsecheck
 PROFILE = dict(p_bad_default=0.0, p_plain_mapkey=1.0, p_required=0.05, p_init=0.0, p_hidden=0.08, p_noini=0.05, p_ininame=0.2, p_commands=0.45, p_group=0.4, p_default=0.3,
                p_bad_value=0.0, p_ev_unknown=0.0, p_ev_garbage=0.0, p_mutate_argv=0.0, p_ev_opt=0.85, p_ev_cmd=0.1, p_ev_plain=0.03, p_ev_term=0.0,
                n_events=(2, 9), p_base=0.25, p_env=0.0, p_choice=0.0, p_positional=0.1, p_optional=0.08, p_help=0.0, p_print=0.0,
-               p_handler=0.0, p_cmdhandler=0.0, p_exec=0.3, p_exec_err=0.0, p_quoted=0.05, p_mb_short=0.1, p_nil_ptr=0.3, p_long_value=0.04, p_addoption=0.1)
+               p_handler=0.0, p_cmdhandler=0.0, p_exec=0.3, p_exec_err=0.0, p_quoted=0.05, p_mb_short=0.1, p_nil_ptr=0.3, p_long_value=0.04, p_addoption=0.1, p_dupfield=0.15)
 
 INIOPTS = [0, 2, 4, 6, 8, 10, 12, 14]
 KEYS = ["panic", "err", "vals", "bytes"]
